@@ -115,9 +115,124 @@ def term_case(args):
     return out
 
 
+def reuse_inners():
+    """Small expressions whose simplified forms re-introduce Minus/Divide or keep products of reciprocals."""
+    x, y = ("Variable", "x"), ("Variable", "y")
+    return [("Multiply", [x, ("Reciprocal", y)]), ("Add", [x, ("Negation", y)]), ("Reciprocal", ("Multiply", [x, y])),
+            ("Divide", ("Sine", x), ("NthRoot", y, 2)), ("Minus", ("NthPower", x, 2), ("Logarithm", y, 2.718281828459045)),
+            ("NthRoot", x, 2), ("Logarithm", ("Sine", x), 2.718281828459045), ("NthRoot", x, 3),
+            ("Logarithm", ("Add", [("NthPower", x, 2), ("Constant", 1)]), 2.718281828459045)]
+
+
+WRAPPERS = ["Multiply(x, r)", "NthPower(r, 2)", "Divide(x, r)", "Minus(x, r)", "Reciprocal(r)", "Add(r, r)",
+            "Minus(x, Divide(e, r))", "Multiply(r, e)"]
+
+
+def same_form(a, b) -> bool:
+    """structural equality with numeric content compared up to rounding (the two runs may fold
+    constants in a different order)"""
+    if a[0] != b[0]:
+        return False
+    if a[0] == "Variable":
+        return a[1] == b[1]
+    if a[0] == "Constant":
+        p, q = float(a[1]), float(b[1])
+        return abs(p - q) <= 1e-9 * max(abs(p), abs(q)) + 1e-300
+    ca, cb = spec.children(a), spec.children(b)
+    if len(ca) != len(cb) or not all(same_form(u, v) for u, v in zip(ca, cb)):
+        return False
+    if a[0] in spec.PARAM:
+        return abs(float(a[2]) - float(b[2])) <= 1e-9 * abs(float(a[2]))
+    return True
+
+
+def reuse_case(args):
+    """Worker: an expression built from *objects returned by earlier simplifications* (a normal form, a
+    symbolic derivative) must still be rewritten to a rule-free form -- the same one a freshly built,
+    structurally equal expression reaches."""
+    inner, how, wrapper = args
+    from ..harness import cref
+    model = load_model()
+
+    def thunk(it):
+        e = build(it, inner, {})
+        x = build(it, ("Variable", "x"), {})
+        if how == "normal form":
+            r = it.call(it.getattr(e, "_normalize"), [], {})
+        else:
+            r = it.call(it.getattr(it.call(cref(model, "Partial"), [e, "x"], {}), "as_expression"), [], {})
+        mk = lambda name, *a, **kw: it.call(cref(model, name), list(a), kw)
+        g = {"Multiply(x, r)": lambda: mk("Multiply", x, r), "NthPower(r, 2)": lambda: mk("NthPower", r, n=2),
+             "Divide(x, r)": lambda: mk("Divide", x, r), "Minus(x, r)": lambda: mk("Minus", x, r),
+             "Reciprocal(r)": lambda: mk("Reciprocal", r), "Add(r, r)": lambda: mk("Add", r, r),
+             "Minus(x, Divide(e, r))": lambda: mk("Minus", x, mk("Divide", e, r)),
+             "Multiply(r, e)": lambda: mk("Multiply", r, e)}[wrapper]()
+        written = obj_to_tree(it, g)
+        reduced = None
+        if model.resolve_method(g.cls, "_fully_reduce") is not None and \
+                model.resolve_method(g.cls, "_normalize_fully_reduced") is not None:
+            red = it.call(it.getattr(g, "_fully_reduce"), [], {})
+            reduced = obj_to_tree(it, red)      # the form the rewriter declares rule-free
+            got = obj_to_tree(it, it.call(it.getattr(red, "_normalize_fully_reduced"), [], {}))
+        else:
+            got = obj_to_tree(it, it.call(it.getattr(g, "_normalize"), [], {}))
+        fresh = obj_to_tree(it, it.call(it.getattr(build(it, _strip_sym(written), None), "_normalize"), [], {}))
+        return written, got, fresh, reduced
+    outs = run_paths(model, thunk, max_paths=2, max_steps=8000000, generic_only=True)
+    o = outs[0]
+    if o["kind"] == "raise":
+        from ..harness import exc_name
+        return {"kind": "raise", "exc": exc_name(o["exc"])}
+    if o["kind"] != "return":
+        return {"kind": "unsupported", "msg": o["msg"]}
+    written, got, fresh, reduced = o["value"]
+    out = {"kind": "ok", "written": spec.show(written), "got": spec.show(got), "fresh": spec.show(fresh),
+           "same": same_form(_strip_sym(got), _strip_sym(fresh))}
+    if reduced is not None:
+        out["reduced"] = spec.show(reduced)
+        ar = applicable_rules((reduced,))
+        if ar["kind"] == "ok" and ar["found"]:
+            out["not_rule_free"] = [(w, f"{at} -> {to}") for (w, at, to) in ar["found"][:3]]
+    return out
+
+
+def check_reuse(rep, model):
+    cases = [(i, how, w) for i in reuse_inners() for how in ("normal form", "symbolic derivative") for w in WRAPPERS]
+    results = pmap(reuse_case, cases, chunksize=4)
+    good = 0
+    for (inner, how, w), r in zip(cases, results):
+        label = f"reuse:{w} with r = the {how} of {spec.show(inner)}"
+        if r["kind"] == "unsupported":
+            rep.unknown("C11.reuse", label, "", r["msg"])
+        elif r["kind"] == "raise":
+            if r["exc"] in ("DomainError", "OverflowError"):
+                rep.count("reuse_cases_skipped")
+            else:
+                rep.violation("C11.reaches-normal-form", label, "", f"simplifying {label} raised {r['exc']}",
+                              witness_class=f"{r['exc']} reuse")
+        elif "not_rule_free" in r:
+            rep.violation("C11.rule-free", f"reuse:{w}", "",
+                          f"{r['written']} (built from the object returned by an earlier simplification) is declared "
+                          f"fully reduced as {r['reduced']}, but {r['not_rule_free'][0][0]} still rewrites "
+                          f"{r['not_rule_free'][0][1]}; a freshly built equal expression reaches {r['fresh']}",
+                          witness=r, witness_class=f"not-rule-free after reuse {w}")
+        elif not r["same"]:
+            rep.violation("C11.reuse", f"reuse:{w}", "",
+                          f"{r['written']} built from the object returned by an earlier simplification simplifies to "
+                          f"{r['got']}, a freshly built equal expression to {r['fresh']}: one of the two runs stopped "
+                          f"before a rule-free form", witness=r, witness_class=f"reuse {w}")
+        else:
+            good += 1
+    if good:
+        rep.ok("C11.reuse", "expressions built from returned normal forms and symbolic derivatives", "",
+               f"{good} combinations (9 inner expressions x 2 kinds of returned object x 8 ways of re-using it): the "
+               f"result is rule-free and equals the result for a freshly built equal expression", cases=good)
+
+
 def check(rep):
     model = load_model()
     tier = rep.tier
+    check_reuse(rep, model)
     inputs = rule_inputs(model, tier) + variable_free_inputs(model) + families() + unary_chains(model, tier)
     inputs += random_trees(rep.seed, 60 if tier == "quick" else 600, 30 if tier == "quick" else 80)
     results = pmap(term_case, inputs, chunksize=8)
@@ -139,6 +254,11 @@ def check(rep):
                 rep.violation("C11.budget", label, out.get("origin", ""),
                               f"normalising the {out['size']}-node input {out['tree']} ends in RecursionError (unbounded growth)",
                               witness_class=f"recursion {label}")
+            elif out["exc"] in ("TypeError", "AttributeError", "KeyError", "IndexError", "ValueError", "ZeroDivisionError",
+                                "AssertionError", "NameError", "UnboundLocalError", "StopIteration"):
+                rep.violation("C11.reaches-normal-form", label, out.get("origin", ""),
+                              f"normalising {out['tree']} never reaches a rule-free form: a rewrite step raises "
+                              f"{out['exc']}", witness_class=f"{out['exc']} {label}")
             else:
                 rep.unknown("C11.trace", label, out.get("origin", ""), f"normalising {out['tree']} raised {out['exc']}")
             continue
